@@ -96,13 +96,21 @@ async fn run_case(flags: Vec<String>, behs: Vec<Beh>, ops: Vec<String>) -> Strin
     let config = verif::make_config(&args, &state).unwrap();
     let wx = Watchexec::with_config(config).unwrap();
     let main = wx.main();
+    // the main task ends by itself after a quit: record when
+    let main_done = Arc::new(std::sync::atomic::AtomicBool::new(false));
+    let main = tokio::spawn({ let sh = sh.clone(); let main_done = main_done.clone(); async move {
+        let r = main.await; main_done.store(true, std::sync::atomic::Ordering::SeqCst);
+        sh.log(match r { Ok(Ok(())) => "mainend".to_string(), Ok(Err(e)) => format!("mainerr:{e:?}").replace(' ', "_").replace('|', "/"), Err(_) => "mainpanic".to_string() }); } });
     settle().await;
     let mut nchg = 0;
     for op in &ops {
         let f: Vec<&str> = op.split(':').collect();
         match f[0] {
-            "init" => { wx.send_event(Event::default(), Priority::Urgent).await.unwrap(); }
-            "chg" => { nchg += 1; sh.log(format!("chg{nchg}")); wx.send_event(change(nchg), Priority::Normal).await.unwrap(); }
+            "init" => { if main_done.load(std::sync::atomic::Ordering::SeqCst) { continue; } wx.send_event(Event::default(), Priority::Urgent).await.unwrap(); }
+            "sig" => { if main_done.load(std::sync::atomic::Ordering::SeqCst) { continue; }
+                let n: i32 = f[1].parse().unwrap();
+                let _ = wx.send_event(Event { tags: vec![Tag::Source(Source::Os), Tag::Signal(watchexec_signals::Signal::from(n))], metadata: Default::default() }, Priority::Urgent).await; }
+            "chg" => { if main_done.load(std::sync::atomic::Ordering::SeqCst) { continue; } nchg += 1; sh.log(format!("chg{nchg}")); wx.send_event(change(nchg), Priority::Normal).await.unwrap(); }
             "a" => { settle().await; tokio::time::sleep(Duration::from_millis(f[1].parse().unwrap())).await; settle().await; }
             "y" => settle().await,
             _ => return "bad-op".into(),
